@@ -290,7 +290,7 @@ def run(ctx):
     rng = ctx.rng
     progs = [(name, e, G.to_sx(e)) for name, e in corpus().items()]
     base = rng.getrandbits(48)
-    for i in range(ctx.n(20, 80)):
+    for i in range(ctx.n(20, 55)):
         prng = random.Random(base + i)
         gen = G.Gen(prng, p_err=prng.choice([0.0, 0.1, 0.25]), max_fan=3)
         for _ in range(30):
